@@ -490,6 +490,20 @@ def read_lines():
                 [{**pb, 'shape': 'line', 'coords': [(1.0, 2.0), (8.0, 3.0)], 'sizes': [], 'angle': None}]))
     out.append(('sky/poly', f'{hdr}poly[[150.0deg, 20.0deg], [150.5deg, 20.0deg], [150.25deg, 20.5deg], [150.0deg, 20.25deg]], coord=J2000\n',
                 [{**base, 'shape': 'polygon', 'coords': [(150.0, 20.0), (150.5, 20.0), (150.25, 20.5), (150.0, 20.25)], 'sizes': [], 'angle': None}]))
+    # every point of a multi-point shape carries its own notation
+    mixed = [_coord_text_as(540900, 73800, 'deg'), _coord_text_as(541800, 75600, 'sexagesimal'), _coord_text_as(541350, 77400, 'rad'),
+             _coord_text_as(540000, 75600, 'hms')]
+    out.append(('sky/poly_mixed_notations', f'{hdr}poly[' + ', '.join(f'[{a}, {b}]' for a, b, _, _ in mixed) + '], coord=J2000\n',
+                [{**base, 'shape': 'polygon', 'coords': [(lo, la) for _, _, lo, la in mixed], 'sizes': [], 'angle': None}]))
+    out.append(('sky/poly_mixed_notations_rev', f'{hdr}poly[' + ', '.join(f'[{a}, {b}]' for a, b, _, _ in mixed[::-1]) + '], coord=ICRS\n',
+                [{'kind': 'sky', 'frame': 'icrs', 'include': True, 'shape': 'polygon', 'coords': [(lo, la) for _, _, lo, la in mixed[::-1]],
+                  'sizes': [], 'angle': None}]))
+    out.append(('sky/line_mixed_notations', f'{hdr}line[[{mixed[1][0]}, {mixed[1][1]}], [{mixed[0][0]}, {mixed[0][1]}]], coord=J2000\n',
+                [{**base, 'shape': 'line', 'coords': [(mixed[1][2], mixed[1][3]), (mixed[0][2], mixed[0][3])], 'sizes': [], 'angle': None}]))
+    # spectral metadata given on the global line reaches the region in the same form as when it is given inline
+    out.append(('global/range', f'{hdr}global coord=J2000, range=[-1240km/s, 1240km/s], corr=[I, Q]\ncircle[[150.0deg, 20.0deg], 30.0arcsec]\n',
+                [{**base, 'shape': 'circle', 'coords': [(150.0, 20.0)], 'sizes': [30.0 / 3600], 'angle': None,
+                  'same_as': f'{hdr}circle[[150.0deg, 20.0deg], 30.0arcsec], coord=J2000, range=[-1240km/s, 1240km/s], corr=[I, Q]\n'}]))
     out.append(('sky/line', f'{hdr}line[[150.0deg, 20.0deg], [150.5deg, 20.25deg]], coord=ICRS\n',
                 [{'kind': 'sky', 'frame': 'icrs', 'include': True, 'shape': 'line', 'coords': [(150.0, 20.0), (150.5, 20.25)], 'sizes': [], 'angle': None}]))
     out.append(('text', f"{hdr}text[[150.0deg, 20.0deg], 'some words'], coord=J2000\n",
@@ -546,6 +560,16 @@ def check_read(res, name):
             res.violation(ID, 'read_text', case, f'{text!r}: text {g["text_param"]!r}, expected {e["text_param"]!r}')
         if 'label' in e and r.meta.get('label') != e['label']:
             res.violation(ID, 'read_text', case, f'{text!r}: label {r.meta.get("label")!r}, expected {e["label"]!r}')
+        if 'same_as' in e:
+            try:
+                twin = _parse(e['same_as'])[0]
+                same = (FP.fp({k: v for k, v in r.meta.items()}) == FP.fp({k: v for k, v in twin.meta.items()})) and bool(r == twin)
+            except Exception as exc:          # noqa: BLE001
+                same = False
+                twin = exc
+            if not same:
+                res.violation(ID, 'read_meta', case, f'{text!r}: region differs from the one read from the inline spelling {e["same_as"]!r}: '
+                                                     f'meta {dict(r.meta)!r} vs {getattr(twin, "meta", twin)!r}')
         for vk, vv in (e.get('visual') or {}).items():
             if str(r.visual.get(vk)) != str(vv):
                 res.violation(ID, 'read_meta', case, f'{text!r} region {k}: {vk} = {r.visual.get(vk)!r}, expected {vv!r} (global vs inline precedence)')
